@@ -2,7 +2,7 @@
 """Prints the markdown table of seeded changes (DESIGN.md 10.8) from seeded/*/meta.json."""
 import json, glob, os, re
 rows = []
-for d in sorted(glob.glob("/verif/seeded/C*-*")):
+for d in sorted(glob.glob("/verif/seeded/C*-*"), key=lambda p: (os.path.basename(p).split("-")[0], int(os.path.basename(p).split("-")[1]))):
     name = os.path.basename(d)
     m = json.load(open(d + "/meta.json"))
     notes = open(d + "/notes.md").read() if os.path.exists(d + "/notes.md") else ""
@@ -14,18 +14,23 @@ for d in sorted(glob.glob("/verif/seeded/C*-*")):
             break
     if not title:
         title = (notes.strip().splitlines() or [""])[0].lstrip("# ").strip()
-    oc = m.get("official_check", {})
-    if not oc.get("applies", True):
-        res = "patch does not apply"
-        by = ""
-    elif oc.get("detected"):
+    # the latest evaluation (tools/seedeval.py: the same engine and contracts run on a scratch worktree
+    # of /repo's HEAD with the patch applied); official_check (the patch applied to /repo itself) exists
+    # for the seeds of the earlier sessions and is kept in meta.json as history
+    if m.get("obsolete"):
+        res, by = "no longer breaks the property (made harmless by a later fix)", ""
+    elif m.get("applies_to_head") is False:
+        res, by = "patch does not apply", ""
+    elif not m.get("confirmed"):
+        res, by = "not confirmed on the current tree", ""
+    elif m.get("detected"):
         res = "caught"
-        v = (oc.get("violations") or [""])[0]
+        v = (m.get("violations") or [""])[0]
         mo = re.search(r"obligation=(.*?)( status=| no-failing|$)", v)
         by = mo.group(1) if mo else v
         if by.startswith("generate "):
             by = "contract no longer maps: " + by[len("generate "):]
-        n = len(oc.get("violations") or [])
+        n = len(m.get("violations") or [])
         if n > 1:
             by += f" (+{n-1})"
     else:
